@@ -255,6 +255,13 @@ func programCases(quick bool) []cs {
 	cases = append(cases, cs{Mode: "program", Fam: "nested-result", Src: "package main\nfunc main(a uint8, b uint8) [2][2]byte {\n\tvar r [2][2]byte\n\tr[0][0] = a\n\tr[0][1] = a + 1\n\tr[1][0] = a + 2\n\tr[1][1] = a + 3\n\treturn r\n}\n", Inputs: []string{"250"}, Want: []string{"250", "251", "252", "253"}})
 	cases = append(cases, cs{Mode: "program", Fam: "nested-result", Src: "package main\nfunc main(a int16, b uint8) [2][3]int16 {\n\tvar r [2][3]int16\n\tr[0][0] = a\n\tr[0][2] = 0 - a\n\tr[1][1] = a + a\n\treturn r\n}\n", Inputs: []string{"-3"}, Want: []string{"-3", "0", "3", "0", "-6", "0"}})
 	cases = append(cases, cs{Mode: "program", Fam: "nested-result", Src: "package main\nfunc main(a uint8, b uint8) [2][2][2]bool {\n\tvar r [2][2][2]bool\n\tr[1][0][1] = a > 3\n\tr[0][1][0] = a > 200\n\treturn r\n}\n", Inputs: []string{"7"}, Want: []string{"0", "0", "0", "0", "0", "1", "0", "0"}})
+	// arrays of arrays as INPUT: the text lists the elements in declaration order at every level, as it does for a
+	// flat array (0x01020304 for [4]byte is {1,2,3,4}; for [2][2]byte it is {{1,2},{3,4}})
+	cases = append(cases, cs{Mode: "program", Fam: "nested-array-input", Src: "package main\nfunc main(a [2][2]byte, b uint8) (byte, byte, byte, byte) {\n\treturn a[0][0], a[0][1], a[1][0], a[1][1]\n}\n", Inputs: []string{"0x01020304"}, Want: []string{"1", "2", "3", "4"}})
+	cases = append(cases, cs{Mode: "program", Fam: "nested-array-input", Src: "package main\nfunc main(a [2][2]byte, b uint8) [2][2]byte {\n\treturn a\n}\n", Inputs: []string{"0xa1b2c3d4"}, Want: []string{"161", "178", "195", "212"}})
+	cases = append(cases, cs{Mode: "program", Fam: "nested-array-input", Src: "package main\nfunc main(a [2][3]uint4, b uint8) (uint4, uint4, uint4, uint4, uint4, uint4) {\n\treturn a[0][0], a[0][1], a[0][2], a[1][0], a[1][1], a[1][2]\n}\n", Inputs: []string{"0x123456"}, Want: []string{"1", "2", "3", "4", "5", "6"}})
+	cases = append(cases, cs{Mode: "program", Fam: "nested-array-input", Src: "package main\nfunc main(a [2][2][2]byte, b uint8) (byte, byte, byte, byte) {\n\treturn a[0][0][0], a[0][0][1], a[0][1][0], a[1][1][1]\n}\n", Inputs: []string{"0x0102030405060708"}, Want: []string{"1", "2", "3", "8"}})
+	cases = append(cases, cs{Mode: "program", Fam: "nested-array-input", Src: "package main\nfunc main(a [3][2]byte, b uint8) (byte, byte, byte, byte, byte, byte) {\n\treturn a[0][0], a[0][1], a[1][0], a[1][1], a[2][0], a[2][1]\n}\n", Inputs: []string{"0x0102"}, Want: []string{"1", "2", "0", "0", "0", "0"}})
 	// the repeat form <count>x<hex> that InputSizes accepts
 	rep := "package main\nfunc main(a []byte, b uint8) (byte, byte, int) {\n\treturn a[0], a[len(a)-1], len(a)\n}\n"
 	for _, in := range []string{"3xab", "1xff", "42x00", "2x0102"} {
